@@ -297,6 +297,13 @@ def run(spec, tier):
                     fn_judged[n["a"]] = fn_judged.get(n["a"], 0) + summaries.get(r["id"], {}).get("judged", 0)
     judged = sum(s["judged"] for s in summaries.values())
     skipped = sum(s["skipped"] for s in summaries.values())
+    nfault = sum(s.get("nfault", 0) for s in summaries.values())
+    nrow = sum(s.get("nrow", 0) for s in summaries.values())
+    # vacuity: a check whose verdict clauses were never exercised has shown nothing
+    if "RowsMatch" in spec.clauses and nrow == 0 and spec.support != "MUST_REJECT":
+        raise common.MachineryError("vacuous run: no event of any case denoted a row")
+    if "FaultMissed" in spec.clauses and nfault == 0:
+        raise common.MachineryError("vacuous run: no event of any case denoted a fault")
     sample_recs = [r for r in recs if r["compile"]["ok"]][:2]
     cov = {
         "states": gs + er.distinct + vs,
@@ -315,6 +322,8 @@ def run(spec, tier):
         "sequences_per_case": len(seqs),
         "event_evaluations_judged": judged,
         "event_evaluations_skipped_outside_domain": skipped,
+        "event_evaluations_expecting_a_fault": nfault,
+        "event_evaluations_expecting_rows": nrow,
         "stage_seconds": stages,
         "clauses": sorted(spec.clauses),
         "math_functions_judged_evaluations": fn_judged,
